@@ -10,7 +10,7 @@ from ..gen import docs as D
 from ..gen import queries as Q
 from ..gen.filters import FilterGen
 from ..gen.render import Renderer
-from ..run import Stats, hyp_run, mix
+from ..run import Stats, hyp_run, mix, rng_for
 from ..strict import canon, is_cyclic, jeq, short, walk
 
 import jsonpath
@@ -155,7 +155,7 @@ def t_random(seed, n):
 
     def body(x):
         doc, s = x
-        rng = random.Random(s)
+        rng = rng_for(s)
         stats.case()
         r = rng.random()
         if r < 0.3:
